@@ -175,6 +175,16 @@ CLAIMED = {
         "technique": "Coq proof (permutation / extensionality invariance) + cross-backend metamorphic differential",
         "design": "DESIGN.md section 5, C02",
     },
+    "C15": {
+        "text": "Coq theorems (props/C15.v): model of read_granular - one entry per distinct variant, each with exactly its own "
+                "rows (table order) restricted to the declared columns, row counts add up (nothing lost/duplicated/leaked), a "
+                "shared union fetch gives each metric the same values; the result-field and scipy.stats.bootstrap argument wiring "
+                "of Bootstrap.analyze_granular regenerated from resampling.py equals the documented one. Tie: exact row "
+                "differential on five backends (+ re-chunked pyarrow); oracle vs scipy.stats.bootstrap with identical arrays/seed",
+        "note": "trusted: Coq kernel (no axioms), hand model tied by differential, wiring extractor, scipy.stats.bootstrap",
+        "technique": "Coq proof (list induction) on a hand model + regenerated wiring tables; exact row differential; scipy oracle",
+        "design": "DESIGN.md section 5, C15",
+    },
 }
 REASONS = {}
 
